@@ -269,6 +269,32 @@ def purity_case(ctx, name, f, args, kwargs):
     r1 = f(*[layout(a, 'C') for a in args], **kwargs)
     if not same(r0, r1):
         ctx.fail('predicate', 'identical-result-when-called-again', site, case, dict(first=core.jsonable(r0), second=core.jsonable(r1)))
+    # a WORK ARRAY REFILLED IN PLACE: the same ndarray objects first hold a sibling input (second column reversed / 1-D floats shifted), the
+    # function is called, the objects are overwritten with this case's values and the function is called again.  Anything remembered under the
+    # identity (or shape) of an argument - a one-entry cache, a memo keyed on id() - answers for the old content.
+    bufs = [layout(a, 'C') for a in args]
+    sib = False
+    for b in bufs:
+        if isinstance(b, np.ndarray) and b.dtype.kind == 'f' and b.size > 1:
+            if b.ndim == 2 and b.shape[1] == 2:
+                b[:, 1] = b[::-1, 1].copy()
+                sib = True
+    if sib:
+        try:
+            f(*bufs, **kwargs)
+            warmed = True
+        except Exception:
+            warmed = False                      # the sibling need not be a valid input; the refill below is what is judged
+        for b, a in zip(bufs, args):
+            if isinstance(b, np.ndarray) and isinstance(a, np.ndarray) and b.shape == a.shape:
+                np.copyto(b, a)
+        try:
+            r2 = f(*bufs, **kwargs)
+            if not same(r0, r2):
+                ctx.fail('predicate', 'same-result-after-the-argument-arrays-were-refilled-in-place', site, case,
+                         dict(fresh_arrays=core.jsonable(r0), refilled_arrays=core.jsonable(r2), sibling_call_completed=warmed))
+        except Exception as e:
+            ctx.fail('predicate', 'completes-after-the-argument-arrays-were-refilled-in-place', site, case, repr(e)[:200])
     for kind in ('F', 'view', 'int64'):
         va = [layout(a, kind) for a in args]
         vs = copy.deepcopy(va)
